@@ -276,8 +276,18 @@ StructEq(a, b) ==
 
 IsContainer(a) == a.k \in {"PC", "SW", "NC", "CF", "SD", "CD"}
 
-(* x == y : never raises; foreign operands compare unequal *)
-EqOf(a, b) == RBool(IsContainer(b) /\ StructEq(a, b))
+(* undefined sampled values (0/0 = nan, x/0 = inf) are not told apart by the
+   model: equality is then only determined for one and the same object *)
+AllDefined(a) == /\ \A k \in 1..Len(a.data) : IsDef(a.data[k])
+                 /\ \A s \in 1..Len(a.samples) : \A k \in 1..Len(a.samples[s]) : IsDef(a.samples[s][k])
+
+(* x == y : never raises; foreign operands compare unequal; same: x is y *)
+EqOfS(a, b, same) ==
+    IF same THEN RBool(TRUE)
+    ELSE IF IsContainer(b) /\ a.k = b.k /\ (~AllDefined(a) \/ ~AllDefined(b))
+            /\ StructEq(a, b) THEN ROpen(Null, {})
+    ELSE RBool(IsContainer(b) /\ StructEq(a, b))
+EqOf(a, b) == EqOfS(a, b, FALSE)
 
 SameType(a, b) == a.k = b.k
 MixedData(a, b) == a.k # b.k /\ {a.k, b.k} = {"SD", "CD"}   \* CorrData is a SampledData
@@ -565,7 +575,7 @@ Mul(i, sc) ==
     /\ Step(HEntry("Mul", i, 0, "", NoSel, sc, FALSE), MulOf(ws[i], sc))
 Eq(i, j) ==
     /\ Focused(i, j)
-    /\ Step(HEntry("Eq", i, j, "", NoSel, NoScalar, FALSE), EqOf(ws[i], ws[j]))
+    /\ Step(HEntry("Eq", i, j, "", NoSel, NoScalar, FALSE), EqOfS(ws[i], ws[j], i = j))
 EqVar(i, var) ==
     /\ Focused(i, i) /\ var \in EqVariantsFor(ws[i])
     /\ Step(HEntry("EqVar", i, 0, var, NoSel, NoScalar, FALSE), EqOf(ws[i], VariantOf(ws[i], var)))
@@ -596,14 +606,14 @@ Sample(i) ==
     /\ Step(HEntry("Sample", i, 0, "", NoSel, NoScalar, FALSE), SampleOf(ws[i]))
 
 (* RedshiftData.from_corrfuncs(cross, ref, unk): ref/unk are autocorrelation
-   CorrFuncs generated from the scenario (seed + 1 / + 2, members rmem / umem:
+   CorrFuncs of the shape of cross (contents: seed + 1 / + 2, members rmem / umem:
    {} = absent); the result is the n(z) ingredient triple of the three samples *)
-AutoCF(s, seed, mem) == MakeValue("CF", s.nb, s.np, TRUE, mem, seed, s.closed)
+AutoCF(a, seed, mem) == [MakeValue("CF", NB(a), NP(a), TRUE, mem, seed, a.closed) EXCEPT !.edges = a.edges]
 SampleOrNull(mem, cf) == IF mem = {} THEN RVal(Null) ELSE SampleOf(cf)
 RedshiftCFOf(cross, s, rmem, umem) ==
     LET sc == SampleOf(cross)
-        sr == SampleOrNull(rmem, AutoCF(s, s.seed + 1, rmem))
-        su == SampleOrNull(umem, AutoCF(s, s.seed + 2, umem))
+        sr == SampleOrNull(rmem, AutoCF(cross, s.seed + 1, rmem))
+        su == SampleOrNull(umem, AutoCF(cross, s.seed + 2, umem))
     IN  IF sc.out \in {"open"} \/ sr.out \in {"open"} \/ su.out \in {"open"}
         THEN ROpen(Null, {"TypeError", "EstimatorError"})
         ELSE RedshiftCDOf(sc.v, sr.v, su.v)
@@ -689,10 +699,11 @@ PSelectable(a) == {sel \in Sels(NP(a)) : PatchesOf(a, sel).out = "val"}
 SampledOf(a) == IF a.k = "CF" THEN SampleOf(a) ELSE PatchSumOf(a)
 
 (* equality is reflexive and structural *)
-EqReflexive == \A a \in Containers : EqOf(a, a).b /\ EqOf(a, VariantOf(a, "copy")).b
+EqReflexive == \A a \in Containers : EqOfS(a, a, TRUE).b /\ (AllDefined(a) => EqOf(a, VariantOf(a, "copy")).b)
 EqSymmetric == \A a \in Containers : \A b \in Partners(a) : EqOf(a, b).b = EqOf(b, a).b
 EqDetectsDifference ==
-    \A a \in Containers : \A var \in (EqVariantsFor(a) \ {"copy"}) : ~EqOf(a, VariantOf(a, var)).b
+    \A a \in Containers : AllDefined(a) =>
+        \A var \in (EqVariantsFor(a) \ {"copy"}) : ~EqOf(a, VariantOf(a, var)).b
 
 (* a + b: counts add, binning and patches must agree, commutative, no member lost *)
 AddAddsCounts ==
@@ -826,7 +837,9 @@ Validity(h) ==
       [] h.op = "RAdd" -> IF h.j # 0 THEN BinaryValidity(a, ws[h.j])
                           ELSE IF h.sel.lo = 0 THEN "valid" ELSE "invalid"
       [] h.op = "Mul" -> IF h.sc.cls \in ValidScalarClasses THEN "valid" ELSE "invalid"
-      [] h.op \in {"Eq", "EqVar", "IterBins", "IterPatches", "PatchSum"} -> "valid"
+      [] h.op \in {"IterBins", "IterPatches", "PatchSum"} -> "valid"
+      [] h.op = "Eq" -> IF EqOfS(a, ws[h.j], h.i = h.j).out = "open" THEN "open" ELSE "valid"
+      [] h.op = "EqVar" -> IF EqOf(a, VariantOf(a, h.var)).out = "open" THEN "open" ELSE "valid"
       [] h.op = "IsCompat" -> CompatValidity(a, ws[h.j], h.req)
       [] h.op = "IsCompatVar" -> CompatValidity(a, VariantOf(a, h.var), h.req)
       [] h.op = "Bins" -> SelValidity(h.sel, NB(a))
